@@ -336,3 +336,145 @@ Proof.
   - unfold local_recips. apply in_map_iff. exists u. split; [done|]. apply filter_In. split; [by apply elem_of_list_In|]. by apply Z.eqb_eq.
   - unfold q0_out. cbn [fst]. rewrite Hs'. unfold wout. rewrite Hbad. left. done.
 Qed.
+
+(** * [quiescent] is what every step re-establishes: after the consumers have run, every node's
+    offset is at the end of its log — provided no node was left with more than [drain_fuel]
+    (4000) unconsumed entries by the step's own part, which is the only way the fuel of the
+    model's consumer loop can run out.  So the premise of the step theorems above holds in the
+    initial state and after every step of any history that keeps within that bound. *)
+Lemma drain_node_other fuel : ∀ cl i j, i ≠ j → getn (drain_node fuel cl i).1 j = getn cl j.
+Proof.
+  induction fuel as [|f IH]; intros cl i j Hne; cbn [drain_node]; [done|].
+  destruct (nth_error (n_log (getn cl i)) (n_coff (getn cl i))) as [m|]; [|done]. cbn [fst].
+  rewrite IH by done. by apply getn_setn_ne.
+Qed.
+Lemma drain_node_nlen fuel : ∀ cl i, nlen (drain_node fuel cl i).1 = nlen cl.
+Proof.
+  induction fuel as [|f IH]; intros cl i; cbn [drain_node]; [done|].
+  destruct (nth_error (n_log (getn cl i)) (n_coff (getn cl i))) as [m|]; [|done]. cbn [fst].
+  rewrite IH. unfold nlen. by rewrite setn_length.
+Qed.
+Definition caught_up (n : node) : Prop := n_coff n = length (n_log n).
+Definition backlog_ok (cl : cluster) : Prop :=
+  ∀ j, (j < nlen cl)%nat → (n_coff (getn cl j) ≤ length (n_log (getn cl j)) ∧ length (n_log (getn cl j)) - n_coff (getn cl j) ≤ drain_fuel)%nat.
+
+Lemma drain_fold_quiescent cl0 : ∀ (l : list nat) cl acc, NoDup l → (∀ j, j ∈ l → (j < nlen cl0)%nat) → nlen cl = nlen cl0 →
+  (∀ j, j ∈ l → getn cl j = getn cl0 j) → backlog_ok cl0 →
+  let r := fold_left drain_f l (cl, acc) in
+  nlen r.1 = nlen cl0 ∧ (∀ j, j ∈ l → caught_up (getn r.1 j)) ∧ (∀ j, j ∉ l → getn r.1 j = getn cl j).
+Proof.
+  induction l as [|i l IH]; intros cl acc Hnd Hlt Hlen Hsame Hb; cbn [fold_left].
+  { cbn zeta. split; [done|]. split; [by intros j ?%elem_of_nil|done]. }
+  apply NoDup_cons in Hnd as [Hni Hnd]. unfold drain_f at 2. cbn [fst snd].
+  assert (Hi : (i < nlen cl0)%nat) by (apply Hlt; left).
+  assert (Hgi : getn cl i = getn cl0 i) by (apply Hsame; left).
+  destruct (Hb i Hi) as [Hle Hfuel].
+  pose proof (drain_consumes_everything drain_fuel cl i) as Hd. unfold nlen in *. rewrite Hlen, Hgi in Hd.
+  specialize (Hd Hi Hfuel). cbn zeta in Hd. destruct Hd as [Hlog Hoff].
+  set (cl' := (drain_node drain_fuel cl i).1) in *.
+  assert (Hl' : length (cl_nodes cl') = length (cl_nodes cl0)) by (pose proof (drain_node_nlen drain_fuel cl i) as H; unfold nlen in H; unfold cl'; by rewrite H).
+  destruct (IH cl' (acc ++ (drain_node drain_fuel cl i).2) Hnd) as (R1 & R2 & R3); try done.
+  - intros j Hj. apply Hlt. by right.
+  - intros j Hj. unfold cl'. rewrite drain_node_other; [apply Hsame; by right|]. intros ->. done.
+  - cbn zeta in *. split; [done|]. split.
+    + intros j [->|Hj]%elem_of_cons; [|by apply R2].
+      rewrite R3 by done. unfold caught_up. rewrite Hlog, Hoff. lia.
+    + intros j Hj. apply not_elem_of_cons in Hj as [Hne Hj]. rewrite R3 by done. unfold cl'. by apply drain_node_other.
+Qed.
+
+Theorem drain_all_quiescent cl : backlog_ok cl → quiescent (drain_all cl).1.
+Proof.
+  intros Hb. unfold drain_all.
+  change (fold_left _ (seq 0 (length (cl_nodes cl))) (cl, [])) with (fold_left drain_f (seq 0 (nlen cl)) (cl, [])).
+  destruct (drain_fold_quiescent cl (seq 0 (nlen cl)) cl []) as (R1 & R2 & _); try done.
+  - apply NoDup_ListNoDup, seq_NoDup.
+  - intros j Hj%elem_of_list_In%in_seq. lia.
+  - cbn zeta in *. intros j Hj. rewrite R1 in Hj. apply R2. apply elem_of_list_In, in_seq. lia.
+Qed.
+Corollary step_reestablishes_quiescence seen cl o : backlog_ok (step_raw seen cl o).1 → quiescent (step seen cl o).1.
+Proof. intros H. unfold step. cbn [fst]. by apply drain_all_quiescent. Qed.
+Lemma cnew_quiescent k : quiescent (cnew k).
+Proof.
+  intros j Hj. unfold getn, cnew. cbn [cl_nodes]. unfold nlen, cnew in Hj. cbn [cl_nodes] in Hj. rewrite map_length, seq_length in Hj.
+  rewrite (nth_indep _ (nnew 0) (nnew (Z.of_nat (S 0)))) by (by rewrite map_length, seq_length).
+  change (nnew (Z.of_nat 1)) with ((λ i, nnew (Z.of_nat (S i))) 0%nat). rewrite map_nth. done.
+Qed.
+
+(** * the publish step for retained publishes as well: the worker first writes (or clears) the
+    retained store of the publisher's node, which touches neither subscriptions nor registry,
+    logs, offsets, pool or in-flight table; everything else is as in [publish_step_spec], read
+    in the cluster [after_retain].  The copies written to the live subscribers carry no retain
+    flag ([m] has [l_retain = false]) — C07's "the live copy is not flagged". *)
+Definition retain_node (n : node) (p : publish) (mp : string) (dup : bool) (clk : Z) : node :=
+  if p_retain p then
+    (if String.eqb (p_payload p) "" then mutate n (ret_delete (n_d n) (prefix_mp mp (p_topic p)) clk)
+     else mutate n (ret_set (n_d n) (Publish (prefix_mp mp (p_topic p)) (p_payload p) (p_qos p) true dup) clk))
+  else n.
+Definition after_retain (cl : cluster) (i : nat) (p : publish) (mp : string) (dup : bool) (clk : Z) : cluster :=
+  setn cl i (retain_node (getn cl i) p mp dup clk).
+
+Lemma retain_node_keeps n p mp dup clk : let n' := retain_node n p mp dup clk in
+  n_log n' = n_log n ∧ n_coff n' = n_coff n ∧ n_fail n' = n_fail n ∧ n_reg n' = n_reg n ∧ n_acks n' = n_acks n ∧
+  n_pool n' = n_pool n ∧ n_id n' = n_id n ∧ d_subs (n_d n') = d_subs (n_d n) ∧ d_sess (n_d n') = d_sess (n_d n).
+Proof. unfold retain_node. destruct (p_retain p); [|done]. destruct (String.eqb (p_payload p) ""); done. Qed.
+
+Lemma after_retain_getn cl i p mp dup clk j :
+  getn (after_retain cl i p mp dup clk) j = if Nat.eqb i j && Nat.ltb i (nlen cl) then retain_node (getn cl i) p mp dup clk else getn cl j.
+Proof. unfold after_retain. apply getn_setn_gen. Qed.
+
+Theorem publish_step_spec_retained seen cl c k s p dup mid clk :
+  find_conn cl c = Some k → c_closed k = false → c_sid k = Some (ss_id s) →
+  alookup (ss_id s) (n_reg (getn cl (c_node k))) = Some s →
+  quiescent cl → healthy cl → (p_qos p = 0 ∨ p_qos p = 1) →
+  let i := c_node k in
+  let m := LMsg (prefix_mp (ss_mp s) (p_topic p)) (p_payload p) (p_qos p) false dup in
+  let cl1 := after_retain cl i p (ss_mp s) dup clk in
+  Forall (λ d, 1 ≤ d) (dests_of cl1 i m) →
+  ∃ stores, quiet (λ x, negb (is_store x)) stores ∧
+    (step seen cl (EPublish c p dup mid clk)).2 =
+      stores ++ (if p_qos p =? 1 then wout (cl_bad cl) c (OPubAck mid) else []) ++ dl s ++
+      flat_map (λ j, if dest_here cl1 i m j then deliveries (cl_bad cl) (app_node (getn cl1 j) m) m else []) (seq 0 (nlen cl)).
+Proof.
+  intros Hk Hcl Hsid Hs Hq Hh Hqos i m cl1 Hpos.
+  unfold step. cbn [step_raw]. unfold do_publish, with_session. rewrite Hk, Hcl, Hsid, Hs. fold i.
+  assert ((p_qos p =? 0) || (p_qos p =? 1) = true) as -> by (destruct Hqos as [-> | ->]; done).
+  fold m. unfold worker. cbn [fst snd l_payload l_topic l_qos l_dup m].
+  change (setn cl i _) with cl1.
+  assert (Hl1 : nlen cl1 = nlen cl) by (unfold cl1, after_retain, nlen; by rewrite setn_length).
+  assert (Hkeep : ∀ j, n_log (getn cl1 j) = n_log (getn cl j) ∧ n_coff (getn cl1 j) = n_coff (getn cl j) ∧ n_fail (getn cl1 j) = n_fail (getn cl j)).
+  { intros j. unfold cl1. rewrite after_retain_getn. destruct (Nat.eqb i j && Nat.ltb i (nlen cl)) eqn:E; [|done].
+    apply andb_true_iff in E as [->%Nat.eqb_eq _]. destruct (retain_node_keeps (getn cl j) p (ss_mp s) dup clk) as (K1 & K2 & K3 & _). done. }
+  assert (Hh1 : healthy cl1).
+  { destruct Hh as [Hd Hf]. split; [done|]. intros j. destruct (Hkeep j) as (_ & _ & ->). apply Hf. }
+  rewrite distribute_fold. fold (dests_of cl1 i m).
+  destruct (dist_fold_healthy i m (dests_of cl1 i m) cl1 [] false Hh1 (idx_nodup _ (dedup_nodup _) Hpos)) as (c' & stores & -> & Q & Hl & Hb & Hc & Hg).
+  cbn [fst snd app]. exists stores. split; [done|].
+  set (P := dest_here cl1 i m).
+  rewrite (drain_all_spec m P c').
+  - rewrite <- !app_assoc. f_equal. f_equal. f_equal. rewrite Hl, Hl1, Hb.
+    apply flat_map_ext. intros j. unfold out_of, P, dest_here. rewrite Hg, Hl1.
+    destruct (bool_decide _ && _) eqn:E; done.
+  - intros j Hj. rewrite Hl, Hl1 in Hj. unfold P, dest_here, pending. rewrite Hg, Hl1. destruct (Hkeep j) as (K1 & K2 & _).
+    destruct (bool_decide _ && _) eqn:E.
+    + exists (n_log (getn cl1 j)). split; [reflexivity|]. unfold app_node. cbn [n_coff set_log]. rewrite K1, K2. by apply Hq.
+    + rewrite K1, K2. by apply Hq.
+Qed.
+
+Lemma after_retain_subs cl i p mp dup clk j topic :
+  sub_by_pattern (n_d (getn (after_retain cl i p mp dup clk) j)) topic = sub_by_pattern (n_d (getn cl j)) topic.
+Proof.
+  rewrite after_retain_getn. destruct (Nat.eqb i j && Nat.ltb i (nlen cl)) eqn:E; [|done].
+  apply andb_true_iff in E as [->%Nat.eqb_eq _].
+  destruct (retain_node_keeps (getn cl j) p mp dup clk) as (_ & _ & _ & _ & _ & _ & _ & K & _).
+  unfold sub_by_pattern. by rewrite K.
+Qed.
+Lemma after_retain_reg cl i p mp dup clk j : n_reg (getn (after_retain cl i p mp dup clk) j) = n_reg (getn cl j).
+Proof.
+  rewrite after_retain_getn. destruct (Nat.eqb i j && Nat.ltb i (nlen cl)) eqn:E; [|done].
+  apply andb_true_iff in E as [->%Nat.eqb_eq _].
+  by destruct (retain_node_keeps (getn cl j) p mp dup clk) as (_ & _ & _ & K & _).
+Qed.
+Lemma after_retain_untouched cl i p mp dup clk j topic :
+  sub_by_pattern (n_d (getn (after_retain cl i p mp dup clk) j)) topic = sub_by_pattern (n_d (getn cl j)) topic
+  ∧ n_reg (getn (after_retain cl i p mp dup clk) j) = n_reg (getn cl j).
+Proof. split; [apply after_retain_subs|apply after_retain_reg]. Qed.
